@@ -1,6 +1,7 @@
 import RedisEmu.Exec
 import RedisEmu.Props.C01
 import RedisEmu.Proofs.AList
+import RedisEmu.Proofs.ParserSafe
 import Mathlib.Tactic.SplitIfs
 /-
   C13 — no client input can crash the process, and every well-formed command gets one reply.
@@ -347,5 +348,47 @@ theorem dispatch_no_crash (c : Ctx) (s : State) (conn : Nat) (argv : List Bytes)
     simp only
     repeat' (first | rfl | split)
     all_goals (first | rfl | exact dispatchParsed_no_crash c s conn _ _ hq)
+
+/-! ### the byte level: whatever arrives on the socket -/
+
+/-- **No sequence of bytes makes the parser panic**: for every input — malformed, truncated, nested to any
+    depth, with any declared lengths and counts — `parse` answers a value or "not (yet) valid", never the
+    crash outcome (the model's rendering of a Go panic). -/
+theorem parse_never_crashes (inp : Bytes) : ∀ site, parseRes inp ≠ .crash site := by
+  intro site hc
+  unfold parseRes parse at hc
+  have hs := (parserSafe_all (inp.length + 1)).value false inp 0
+  split at hc
+  · cases hc
+  · cases hc
+  · rename_i s heq
+    exact crash_absurd hs heq
+
+/-- … hence no sequence of segments kills a connection: the buffer model never reaches its dead state -/
+theorem feed_never_dies (chunks : List Bytes) : ∀ (s : ConnState), s.dead = false → (chunks.foldl feed s).dead = false := by
+  have drain_alive : ∀ (fuel : Nat) (s : ConnState), s.dead = false → (drain fuel s).dead = false := by
+    intro fuel
+    induction fuel with
+    | zero => intro s h; exact h
+    | succ n ih =>
+      intro s h
+      unfold drain
+      rw [h]
+      simp only [Bool.false_eq_true, if_false]
+      split
+      · split_ifs
+        · exact h
+        · exact ih _ rfl
+      · exact h
+      · rename_i site heq
+        exact absurd heq (parse_never_crashes _ site)
+  induction chunks with
+  | nil => intro s h; exact h
+  | cons c r ih =>
+    intro s h
+    simp only [List.foldl_cons]
+    apply ih
+    unfold feed
+    exact drain_alive _ _ h
 
 end RedisEmu
